@@ -673,11 +673,12 @@ func cmdConc(prop string, args []string) int {
 								}
 							}(g)
 						}
-						for round := 0; round < 40; round++ {
+						// registrations keep arriving for a second and a half
+						for until := time.Now().Add(1500 * time.Millisecond); time.Now().Before(until); {
 							for _, a := range made[6:] {
 								_ = fx.Fetcher.AddAccount(ctx, w, a)
 							}
-							time.Sleep(2 * time.Millisecond)
+							time.Sleep(100 * time.Microsecond)
 						}
 						close(stop)
 						wg.Wait()
